@@ -177,3 +177,38 @@ S("r3-C18-m3", "skip-slice-count-precheck", "wire.go Skip WTSlice pre-check coun
 S("r3-C19-m1", "interned-null-loses-omit", "null.go internedNullStringCodec embeds the interning codec and loses the null-aware Omit", "valid empty null.String tagged intern")
 S("r3-C19-m2", "intern-fixed-array-key", "string.go intern table keyed by a zero-padded [32]byte", "values differing only in trailing NUL bytes")
 S("r3-C19-m3", "intern-table-cap-2", "string.go addString table size cap returns the zero string once full", "more than 1024 distinct values, then a new one")
+
+# ---- round 4 ----
+S("r4-C01-m1", "direct-iface-pointer-field-only", "marshal.go isDirectIface struct case simplified to Field(0).Type.Kind() == Ptr", "by-value Marshal of struct{M map[..]..} or struct{In struct{P *T}}")
+S("r4-C01-m2", "pointer-read-fresh-value-2", "wrapper.go PointerWrapper.Read always allocates a fresh pointee", "pointer to a repeated-form slice with two or more elements")
+S("r4-C01-m3", "struct-size-prefix-from-total-2", "struct.go StructCodec.Size computes the prefix width from body plus tag", "struct body of exactly 127 bytes, nested in something length-prefixed")
+S("r4-C02-m1", "uint8-size-always-one", "int.go UintCodec size returns 1 for every one-byte type", "uint8 >= 128 inside a nested struct / slice element / map entry")
+S("r4-C02-m2", "overlay-ignores-tag", "struct.go wrappedCodecRegistry.Load matches held-back codecs by type only", "two fields of one non-registered type with different options in one struct")
+S("r4-C02-m3", "string-replaces-invalid-utf8", "string.go StringCodec replaces invalid UTF-8 with U+FFFD before writing", "string that is not valid UTF-8")
+S("r4-C04-m1", "walker-packed-loop-no-progress-check", "descriptor.go readAsSlice: n <= 0 guard removed from the packed element loop", "Descriptor decode of a packed slice ending in a truncated varint")
+S("r4-C04-m2", "readtag-fast-path", "wire.go ReadTag fast path reads data[1] without a length check", "input ending after the first byte of a multi-byte tag")
+S("r4-C04-m3", "map-length-check-int", "map.go readTagAndLength compares int(fieldLen) with the remaining bytes", "map key/value with a length varint >= 2^63")
+S("r4-C05-m1", "bqtimestamp-size-zigzag", "time.go BQTimestampCodec.Size sizes the value as a zig-zag varint", "time before 1970 or in 1978-1987 inside a length-delimited parent")
+S("r4-C05-m2", "struct-read-stops-at-zero-tag", "struct.go StructCodec.Read treats a 0x00 tag byte as end of message", "struct with a varint field tagged plenc:\"0\"")
+S("r4-C05-m3", "nullint-size-zero-when-invalid", "null.go nullIntCodec.Size returns 0 when invalid while Append writes a byte", "[]null.Int with an invalid element")
+S("r4-C09-m1", "interned-null-loses-omit-2", "null.go internedNullStringCodec embeds the interning codec (Omit and Descriptor from the plain string codec)", "valid empty null.String tagged intern")
+S("r4-C09-m2", "varint-slice-empty-writes-nothing", "wrapper.go WTVarIntSliceWrapper writes nothing at all for an empty slice", "non-nil pointer to an empty []int")
+S("r4-C09-m3", "map-descriptor-drops-presence", "map.go MapCodec.Descriptor rebuilds key/value descriptors without ExplicitPresence", "map with pointer or null-typed key or value")
+S("r4-C11-m1", "timecompat-append-stores-utc", "time.go TimeCompatCodec.append stores t.UTC() back through the pointer", "ProtoCompatibleTime and a time whose Location is not UTC")
+S("r4-C11-m2", "bytes-read-empty-view", "string.go BytesCodec.Read returns data[:0] for present-but-empty bytes", "empty []byte element; append to the decoded slice")
+S("r4-C11-m3", "bool-slice-normalises-input", "wrapper.go WTVarIntSliceWrapper.Read rewrites input bytes > 1 to 1 for []bool", "[]bool with a true element encoded as 0x02..0x7f")
+S("r4-C12-m1", "timecompat-omits-zero-fields", "time.go TimeCompatCodec omits seconds/nanos when zero", "ProtoCompatibleTime and time.Unix(0,0)")
+S("r4-C12-m2", "protoslice-slot-not-cleared-3", "wrapper.go ProtoSliceWrapper.Read no longer clears the appended slot", "re-used target with spare capacity")
+S("r4-C12-m3", "proto-not-for-pointer-elements", "codec.go proto form not used for slices of pointers", "[]*Struct in proto mode, checked with an independent wire walker")
+S("r4-C14-m1", "slice-descriptor-clears-presence", "wrapper.go BaseSliceWrapper.Descriptor forces ExplicitPresence = false on its element", "[]*int, []*struct, []null.X")
+S("r4-C14-m2", "protoslice-descriptor-is-element", "wrapper.go new ProtoSliceWrapper.Descriptor returns the element's descriptor", "proto-style slice of strings or structs")
+S("r4-C14-m3", "jsonmap-descriptor-logical-map", "json.go JSONMapCodec.Descriptor adds LogicalTypeMap", "field of type map[string]any with JSONMapCodec registered")
+S("r4-C15-m1", "time-via-marshaljson", "output.go Time uses t.MarshalJSON and drops the error", "year outside 0..9999")
+S("r4-C15-m2", "prefix-indent-slice", "output.go prefix slices a 64-space constant, guard compares depth with its byte length", "more than 32 containers open")
+S("r4-C15-m3", "appendstring-rune-error", "output.go appendString replaces bytes that decode to RuneError without checking size", "string containing U+FFFD")
+S("r4-C17-m1", "overlay-ignores-tag-2", "struct.go wrappedCodecRegistry.Load drops the tag comparison for held-back codecs", "one struct with two fields of the same derived type and different tag options")
+S("r4-C17-m2", "lazy-default-plenc", "codec.go/marshal.go default instance initialised lazily with sync.Once; package-level RegisterCodec writes straight into it", "package-level registration for a default key before the first use")
+S("r4-C17-m3", "registration-first-one-wins", "plenc.go RegisterCodecWithTag uses StoreOrSwap (LoadOrStore)", "registration for a key that already has an entry")
+S("r4-C20-m1", "skip-write-when-unchanged", "plenctag skips the write-back unless a fresh index was handed out", "-w and only excluded fields left to tag")
+S("r4-C20-m2", "first-pass-drops-errors", "plenctag first pass no longer records plencValue errors", "existing plenc tag with a non-numeric index")
+S("r4-C20-m3", "splice-into-literal", "plenctag splices the plenc tag into the tag literal before its closing quote", "existing tag written as an interpreted string literal")
